@@ -62,8 +62,11 @@ type Op struct {
 	N      int             `json:"n,omitempty"`      // step: count; deliver: max events; clock: milliseconds; event: type; cancel: op index
 	Async  bool            `json:"async,omitempty"`  // send without settling afterwards
 	NoEvt  bool            `json:"noevt,omitempty"`  // save / fswrite / fsremove: the watcher stays silent
-	Faults []simfs.Fault   `json:"faults,omitempty"`
-	Net    string          `json:"net,omitempty"` // deliver:<json> | readerr | faildial:<n> | failwrite:<n>
+	// save: only the didSave message (with Text if set); the disk write is a separate fswrite op
+	// (C10's sequential references place the editor's disk write and its notification independently)
+	NoWrite bool          `json:"nowrite,omitempty"`
+	Faults  []simfs.Fault `json:"faults,omitempty"`
+	Net     string        `json:"net,omitempty"` // deliver:<json> | readerr | faildial:<n> | failwrite:<n>
 }
 
 // Scenario is everything that determines one simulated run.
@@ -72,9 +75,9 @@ type Scenario struct {
 	Seed     int64                  `json:"seed"`
 	Note     string                 `json:"note,omitempty"`
 	Files    []File                 `json:"files"`
-	InitOpts map[string]interface{} `json:"init_opts"`          // initializationOptions (nil = client default: all checks on)
-	NoInit   bool                   `json:"no_init,omitempty"`  // do not send initialize/initialized automatically
-	Folders  []string               `json:"folders,omitempty"`  // workspaceFolders (absolute paths)
+	InitOpts map[string]interface{} `json:"init_opts"`           // initializationOptions (nil = client default: all checks on)
+	NoInit   bool                   `json:"no_init,omitempty"`   // do not send initialize/initialized automatically
+	Folders  []string               `json:"folders,omitempty"`   // workspaceFolders (absolute paths)
 	FirstCfg bool                   `json:"first_cfg,omitempty"` // send the start-up didChangeConfiguration the server swallows
 	Ops      []Op                   `json:"ops"`
 	Sched    simrt.Config           `json:"sched"`
